@@ -2,7 +2,7 @@
 EXTENDS O2OParent, Json
 CONSTANTS MaxBase, MaxOwn, VarsSet
 VARIABLE in
-Init == \E k \in {"bare", "param", "nested"}, v \in VarsSet : in = [kind |-> k, bit |-> <<>>, own |-> <<>>, ppos |-> 1, vars |-> v]
+Init == \E k \in {"bare", "param", "nested", "nested3"}, v \in VarsSet : in = [kind |-> k, bit |-> <<>>, own |-> <<>>, ppos |-> 1, vars |-> v]
 AddBase(it) == Len(in.bit) < MaxBase /\ in.own = <<>> /\ in' = [in EXCEPT !.bit = Append(@, it)]
 AddOwn(it) == Len(in.own) < MaxOwn /\ in.ppos = 1 /\ in' = [in EXCEPT !.own = Append(@, it)]
 Place(p) == in.ppos = 1 /\ p > 1 /\ p <= Len(in.own) + 1 /\ in' = [in EXCEPT !.ppos = p]
